@@ -190,4 +190,19 @@ theorem widened_contains {tmin tmax g ts : Int} (hlo : tmin - g ≤ ts) (hhi : t
   · split <;> omega
   · split <;> omega
 
+/-! ### segment coverage -/
+
+theorem coverageOf_eq (r : SegRange) (hz : r.startZero = false ∧ r.endZero = false)
+    (h64 : minI64 ≤ r.start ∧ r.end_ ≤ maxI64) (hlt : r.start < r.end_) :
+    coverageOf r = ((if r.inclStart then r.start else r.start + 1), (if r.inclEnd then r.end_ else r.end_ - 1),
+      decide ((if r.inclStart then r.start else r.start + 1) ≤ (if r.inclEnd then r.end_ else r.end_ - 1))) := by
+  obtain ⟨hz1, hz2⟩ := hz
+  unfold minI64 maxI64 at h64
+  have h1 : satAdd r.start 1 = r.start + 1 := by unfold satAdd maxI64; rw [if_neg]; omega
+  have h2 : satSub r.end_ 1 = r.end_ - 1 := by unfold satSub minI64; rw [if_neg]; omega
+  unfold coverageOf
+  simp only [hz1, hz2, Bool.false_or, hlt, decide_true, Bool.not_true, Bool.false_eq_true, if_false, h1, h2]
+  cases r.inclStart <;> cases r.inclEnd <;> rfl
+
+
 end Banyan.C13
